@@ -7,7 +7,7 @@ CONFIGS = [('c-inference', 'rc2')]
 WEAKLY = False
 WANT = 'strong'
 RULE = ("strongly consistent bases of <= 5 atoms / <= 5 conditionals (unfalsifiable conditionals, Top/Bottom, duplicates, single-conditional bases included); judged by M5: a counter c-representation found by bounded brute force or by a certified z3 model is a definite 'not entailed', z3-unsat of the world-level system is 'entailed'. Non-trivial = A&B and A&!B both satisfiable; distinct by hash(base, query).")
-ASSUMPTIONS = ['worlds are enumerated: bases of <= 6 atoms (incl. query atoms outside the signature), <= 8 conditionals, formula depth <= 3', 'reference semantics vf/refmodel.py is the definition quoted in the property (self-tested on textbook instances at start-up)']
+ASSUMPTIONS = ['worlds are enumerated: bases of <= 6 atoms (incl. query atoms outside the signature) and <= 8 conditionals, plus a ~5% share of "wide" bases with 7-8 atoms, 9-13 conditionals or 5-7 layers; formula depth <= 3 (deep equivalent wrappers to depth 9)', 'reference semantics vf/refmodel.py is the definition quoted in the property (self-tested on textbook instances at start-up)']
 TRUSTED = ["z3 'unsat' for the world-level c-representation system (sat answers are re-checked in pure Python)"]
 FLOOR = {'quick': 200, 'thorough': 2000}
 BUDGET = {'quick': 90, 'thorough': 1200}
